@@ -21,6 +21,10 @@ FIXED = [
     "bind tcp4 / staller 0 off=0 mode=stop / conn 0 / xchg 1 / staller 0 off=70 mode=stop / conn 0 / xchg 3 / unbind 0 / binds / probe 0",
     "bind ipc / staller 0 off=0 mode=stop / conn 0 / xchg 1 / unbind 0 / binds / probe 0",
     "bind tcp4 / bind tcp6 / staller 0 off=10 mode=stop / staller 1 off=64 mode=stop / conn 0 / conn 1 / unbind 0 / xchg 3 / binds / probe 0 / probe 1",
+    # the process runs out of descriptors for a moment while a client connects (accept fails): the endpoint is still bound and
+    # goes on accepting afterwards
+    "bind tcp4 / conn 0 / fdsqueeze 0 / conn 0 / xchg 1 / probe 0 / unbind 0 / binds / probe 0",
+    "bind ipc / conn 0 / fdsqueeze 0 / fdsqueeze 0 / conn 0 / xchg 1 / probe 0 / unbind 0 / binds / probe 0",
     # "any number of connections until it is unbound": seventy clients that connected and went silent, then a well-behaved one
     "bind tcp4 / " + " / ".join(["staller 0 off=0 mode=stop"] * 70) + " / conn 0 / xchg 70 / unbind 0 / binds / probe 0",
     "bind ipc / " + " / ".join(["staller 0 off=64 mode=stop"] * 70) + " / conn 0 / xchg 70 / unbind 0 / binds / probe 0",
@@ -117,7 +121,7 @@ def replay(line, obs):
         elif op[0] in ("unbindx", "unbindalias"):
             mops.append("ux")
             i += 1
-        elif op[0] in ("conn", "xchg", "binds", "probe", "staller"):
+        elif op[0] in ("conn", "xchg", "binds", "probe", "staller", "fdsqueeze"):
             i += 1
     return mops
 
